@@ -129,6 +129,40 @@ func (g *gen) ctx(id int) CtxSpec {
 	return cx
 }
 
+// growth control: a reducer / @for increment is applied repeatedly to its own
+// result. It may mention {0} at most once and must not loop itself, so values
+// grow at most linearly with the number of applications (no 2^n strings).
+func countM0(a Arg) (m0 int, loops bool) {
+	var walk func(n *Node)
+	walk = func(n *Node) {
+		if n.K == "m" && n.I == 0 {
+			m0++
+		}
+		if n.K == "call" && (n.S == "@for" || n.S == "@range" || n.S == "@reduce") {
+			loops = true
+		}
+		for _, x := range n.A {
+			for _, p := range x.P {
+				walk(p)
+			}
+		}
+	}
+	for _, p := range a.P {
+		walk(p)
+	}
+	return
+}
+
+func tame(a Arg) bool {
+	m0, loops := countM0(a)
+	return m0 <= 1 && !loops
+}
+
+// clamp keeps an operand that may be arbitrarily large inside -30..30.
+func clamp(n *Node) Arg {
+	return arg(call("mini", arg(call("maxi", arg(n), ia(-30))), ia(30)))
+}
+
 // ---------------------------------------------------------------- literals
 
 func (g *gen) litInt() *Node { return lit(strconv.Itoa(g.intVal())) }
@@ -453,7 +487,9 @@ func (g *gen) reduce(d, sv int, inFor bool) *Node {
 		case 5:
 			f = arg(call("subi", arg(mt(1)), arg(mt(0))))
 		default:
-			f = g.val(d, 2, inFor)
+			if f = g.val(d, 2, inFor); !tame(f) {
+				f = arg(call("sumi", arg(mt(1)), arg(mt(0))))
+			}
 		}
 	} else {
 		switch g.r.Intn(7) {
@@ -474,7 +510,9 @@ func (g *gen) reduce(d, sv int, inFor bool) *Node {
 				f = Arg{P: []*Node{mt(0), lit("."), mt(1)}}
 			}
 		default:
-			f = g.val(d, 2, inFor)
+			if f = g.val(d, 2, inFor); !tame(f) {
+				f = Arg{P: []*Node{mt(1), lit("~"), mt(0)}}
+			}
 		}
 	}
 	a := []Arg{l, g.subArg(f)}
@@ -495,7 +533,8 @@ func (g *gen) rng(d, sv int, inFor bool) *Node {
 			if sv == 0 {
 				return arg(mt(1 + 2*g.r.Intn(2)))
 			}
-			return arg(mt(g.r.Intn(sv)))
+			// a bound variable can be arbitrarily large (e.g. a doubling @for)
+			return clamp(mt(g.r.Intn(sv)))
 		case 1:
 			if g.keyOK(inFor) {
 				return arg(key("n"))
@@ -562,7 +601,9 @@ func (g *gen) forLoop(d, sv int, inFor bool) *Node {
 		case 5:
 			incr = arg(call("multi", arg(mt(1)), arg(mt(1))))
 		default:
-			incr = g.val(d-1, 2, true)
+			if incr = g.val(d-1, 2, true); !tame(incr) {
+				incr = arg(call("subi", arg(mt(0)), ia(1)))
+			}
 		}
 	} else {
 		if g.r.Intn(5) == 0 && !g.avoid[fpForLeadEmpty] {
@@ -591,7 +632,9 @@ func (g *gen) forLoop(d, sv int, inFor bool) *Node {
 				incr = arg(call("upper", Arg{P: []*Node{mt(0), lit("q")}}))
 			}
 		default:
-			incr = g.val(d-1, 2, true)
+			if incr = g.val(d-1, 2, true); !tame(incr) {
+				incr = Arg{P: []*Node{mt(1), lit("."), mt(0)}}
+			}
 		}
 	}
 	return call("@for", start, g.subArg(while), g.subArg(incr))
